@@ -6,8 +6,9 @@ allowed, `{ref}` tags removed from the tree as `remove_refs` does), the full che
 referenced columns' entries, and the count of `Definition` tags.  The request carries the schema environment (our own XML
 reading), the definition dictionary and the JSON documents; nothing is recorded from the real validator.  Compared with the
 real `Sidecar.validate(schema, extra_def_dicts)`: exception class, or the complete sorted
-(kind, code, severity, sidecar column, key) list.  Outside the closed fragment (answered `unmodelled`, skipped and counted):
-sidecars that declare definitions, unsupported value-class patterns, assembled strings on
+(kind, code, severity, sidecar column, key) list.  Sidecars that declare definitions go through `SidecarV.validateClosedD` (C09's definition model on the entries' trees, the
+accepted definitions joined to the dictionary).  Outside the closed fragment (answered `unmodelled`, skipped and counted):
+unsupported value-class patterns, assembled strings on
 which the real validator raises.
 """
 import io
@@ -46,7 +47,44 @@ def entry(rng, g):
     return rng.choice(PLAIN) + ", " + rng.choice(PLAIN)
 
 
-def gen_doc(rng, g):
+DEF_USERS = ["Def/Abc", "Def/Abc, Blue", "Def/Xyz/3", "Def/Xyz", "Def/Abc/3", "(Def-expand/Abc, (Red))", "(Def-expand/Abc, (Blue))",
+             "(Def-expand/Xyz/3, (Label/3))", "Def/Val/4", "(Def/Two, Onset)", "Def/Solo", "Def/Mk/3", "Def/Mk", "Def/abc",
+             "Def/Nope", "Def/A", "Def/C/2"]
+DEF_MORE = ["(Definition/Mk/#, (Label/#))", "(Definition/A, (Green))", "(Definition/c/#, (Label/#))",      # A, C: external names
+            "(Definition/Abc, (Red)), Red", "(Definition/Un/#, (Distance/# m))"]
+
+
+def def_entry(rng):
+    x = rng.random()
+    if x < 0.5:
+        return rng.choice(c08.DEF_OK + DEF_MORE)
+    if x < 0.85:
+        return rng.choice(c08.DEF_BAD)[0]
+    return rng.choice(c08.DEF_ODD)
+
+
+def gen_doc(rng, g, declare=False):
+    """`declare`: sidecars that declare definitions are drawn at weight 0.35 (off by default: other checks reuse this
+    generator for sidecars whose definition handling they do not model)"""
+    doc = _gen_doc(rng, g)
+    if declare and rng.random() < 0.35:           # a sidecar that declares definitions, used (rightly and wrongly) by other entries
+        col = {"HED": {k: def_entry(rng) for k in rng.sample(["d1", "d2", "d3"], rng.randint(1, 3))}}
+        if rng.random() < 0.2:
+            col["HED"]["plain"] = "Blue"                  # definitions mixed with a plain entry: BAD_DEFINITION_LOCATION
+        items = list(doc.items())
+        items.insert(rng.randint(0, len(items)), ("defs", col))
+        doc = dict(items)
+        for n, e in doc.items():
+            if n != "defs" and isinstance(e.get("HED"), dict):
+                for k in list(e["HED"]):
+                    if rng.random() < 0.4:
+                        e["HED"][k] = rng.choice(DEF_USERS) if rng.random() < 0.7 else e["HED"][k] + ", " + rng.choice(DEF_USERS)
+        if rng.random() < 0.15:
+            doc["defs2"] = {"HED": {"d1": def_entry(rng)}}     # a second definition column: duplicates across columns
+    return doc
+
+
+def _gen_doc(rng, g):
     names = NAMES[:rng.randint(1, 5)]
     rng.shuffle(names)
     doc, bearing = {}, []
@@ -94,6 +132,9 @@ WITNESS = [
     {"a": {"HED": {"go": "(Def/C, Green)", "stop": "Def/Zed"}}},
     {"a": {"HED": {"go": "Red, ({b}), Red", "stop": "({b}, (Blue, {b})), {HED}"}}, "b": {"HED": {"x": "n/a", "y": "Green"}}},
     {"a": {"HED": "(Label/#, {HED}), {b}"}, "b": {"HED": {"x": "n/a"}}},
+    {"defs": {"HED": {"d1": "(Definition/Mk/#, (Label/#))"}}, "a": {"HED": {"go": "Def/Mk/3", "stop": "Def/Mk"}}},
+    {"a": {"HED": {"go": "(Def/Two, Onset)", "stop": "Def/A, Def/Abc"}},
+     "defs": {"HED": {"d1": "(Definition/Two, (Red, (Blue, Green)))", "d2": "(Definition/A, (Green))", "d3": "(Definition/P5/#, (Red/#))"}}},
 ]
 
 
@@ -123,7 +164,7 @@ def run_closed(ctx, docs=None):
     g = c01.Gen(ctx.rng, v, pluralize.plural)
     if docs is None:
         n = 800 if ctx.quick() else 8000
-        docs = list(WITNESS) + [gen_doc(ctx.rng, g) for _ in range(n)]
+        docs = list(WITNESS) + [gen_doc(ctx.rng, g, declare=True) for _ in range(n)]
     chars = sorted({c for d in docs for c in json.dumps(d, ensure_ascii=False) if ord(c) > 127})
     env = dict(v.payload(chars), **c01.detect_variant(), ns="")
     ans = []
@@ -149,6 +190,9 @@ def run_closed(ctx, docs=None):
         mine = sorted(m["ok"], key=c08.obs_key)
         refs = any("{" in x for x in c08._walk_strings(d))
         ctx.count("closed:compared" + ("-with-refs" if refs else ""))
+        if any("definition/" in x.casefold() for x in c08._walk_strings(d)):
+            ctx.count("closed:compared-declaring-definitions")
+            ctx.count("closed:definitions-accepted", len(m.get("defs", [])))
         if refs and any(x == "n/a" or "{HED}" in x for x in c08._walk_strings(d)):
             ctx.count("closed:compared-with-n/a-splice")
         for i in mine:
